@@ -191,6 +191,8 @@ def make_broker(lab: Lab, backend_fail: Callable[[str], bool] = lambda tid: Fals
     from taskiq import AsyncBroker
     from taskiq.abc.result_backend import AsyncResultBackend
 
+    store: Dict[str, Any] = {}
+
     class Backend(AsyncResultBackend):  # type: ignore[type-arg]
         async def set_result(self, task_id: str, result: Any) -> None:
             lab.save_seq = getattr(lab, "save_seq", 0) + 1  # type: ignore[attr-defined]
@@ -202,12 +204,13 @@ def make_broker(lab: Lab, backend_fail: Callable[[str], bool] = lambda tid: Fals
                 lab.rec("set_result", "raise", task_id, seq)
                 raise RuntimeError("backend down")
             lab.rec("set_result", "end", task_id, seq)
+            store[task_id] = result
 
         async def is_result_ready(self, task_id: str) -> bool:
-            return False
+            return task_id in store  # a truthful backend
 
         async def get_result(self, task_id: str, with_logs: bool = False) -> Any:
-            raise KeyError(task_id)
+            return store[task_id]
 
     class Broker(AsyncBroker):
         def __init__(self) -> None:
